@@ -47,8 +47,14 @@ let keep_esc : bool =
   if Array.length Sys.argv > 1 && Sys.argv.(1) = "--fixed" then true
   else if Array.length Sys.argv > 1 && Sys.argv.(1) = "--as-found" then false
   else uv_keep_as_is
+let all_items : bool =
+  if Array.length Sys.argv > 1 && Sys.argv.(1) = "--fixed" then true
+  else if Array.length Sys.argv > 1 && Sys.argv.(1) = "--as-found" then false
+  else uv_empty_as_is
+(* with both repairs of the key parsing the instance is pat_ops_n (the one the reachable-state theorems are about) *)
 let base_ops : matchOps =
-  pat_ops (fun k -> chars_of (name_str k)) (fun s -> intern (string_of_chars s)) keep_esc
+  if all_items && keep_esc then pat_ops_n (fun k -> chars_of (name_str k)) (fun s -> intern (string_of_chars s))
+  else pat_ops (fun k -> chars_of (name_str k)) (fun s -> intern (string_of_chars s)) keep_esc
 let match_cache : (string * string, bool) Hashtbl.t = Hashtbl.create 256
 let keys_cache : (string, string list option) Hashtbl.t = Hashtbl.create 64
 let checked : (string, unit) Hashtbl.t = Hashtbl.create 64
@@ -174,6 +180,12 @@ let () =
               let names = List.filter_map (fun c -> match c with
                   | 'R' -> Some PReflect | 'G' -> Some PGw2Nb | 'N' -> Some PNb2Gw | 'K' -> Some PKeys | 'F' -> Some PFilters | _ -> None)
                   (List.init (String.length (nth 2)) (String.get (nth 2))) in
+              st := rstep ops fx !st (RCmd (s, RRemoveParams names)); true
+            | "rw" ->
+              (* the parameter names the wildcard pattern matches (StringMatcher model), in _parameters' field order *)
+              let c = Obj.repr (chars_of (nth 2)) in
+              let names = List.filter_map (fun (nm, p) -> if ops.cmatch c (intern nm) then Some p else None)
+                  [("!Self", PReflect); ("!G2N", PGw2Nb); ("!N2G", PNb2Gw); ("!SnKy", PKeys); ("!SnFl", PFilters)] in
               st := rstep ops fx !st (RCmd (s, RRemoveParams names)); true
             | "m" | "q" ->
               let sf = nth 5 in
